@@ -435,6 +435,20 @@ impl Serializer {
 //@@ spec
     ensures r == Ok::<Value, Error>(Value::Uint(v)), *final(self) == *old(self),
 //@@ end
+//@@ fn file=serde_amqp/src/value/ser.rs impl=`~ser::Serializer for &'a mut Serializer` name=serialize_f32
+//@@ selfmut
+//@@ ret Result<Value, Error>
+//@@ subst `OrderedFloat::from(v)` => `OF32::from(v)` rule=R11
+//@@ spec
+    ensures r == Ok::<Value, Error>(Value::Float(of32(v))), *final(self) == *old(self),       // [C20.tree.float-node] [C03.tree.float-node] a float is the Float node holding that float (ser.rs writes 0x72 + its bit pattern: unit SERFIX)
+//@@ end
+//@@ fn file=serde_amqp/src/value/ser.rs impl=`~ser::Serializer for &'a mut Serializer` name=serialize_f64
+//@@ selfmut
+//@@ ret Result<Value, Error>
+//@@ subst `OrderedFloat::from(v)` => `OF64::from(v)` rule=R11
+//@@ spec
+    ensures r == Ok::<Value, Error>(Value::Double(of64(v))), *final(self) == *old(self),       // [C20.tree.float-node] [C03.tree.float-node]
+//@@ end
 //@@ fn file=serde_amqp/src/value/ser.rs impl=`~ser::Serializer for &'a mut Serializer` name=serialize_none
 //@@ selfmut
 //@@ ret Result<Value, Error>
